@@ -19,7 +19,7 @@ git -C /repo worktree remove --force $S/wt
 rm -rf $S
 git -C /repo apply $PATCH || { echo "cannot apply to /repo"; exit 7; }
 for p in "$@"; do
-  /verif/bin/goitsym check --property $p --tier quick > /tmp/mutcheck_$p.log 2>&1
+  /verif/bin/goitsym check -j ${MUT_J:-16} --property $p --tier quick > /tmp/mutcheck_$p.log 2>&1
   echo "check $p exit=$? :: $(grep -c '^VIOLATION' /tmp/mutcheck_$p.log) violation lines :: $(grep '^VIOLATION' -A1 /tmp/mutcheck_$p.log | grep harness= | head -2 | cut -c1-260 | tr '\n' ' ')"
 done
 git -C /repo checkout -- . && git -C /repo status --short | head -3
